@@ -23,6 +23,16 @@ type SpecScope struct {
 	pure    bool // inside a spec function body: no state
 	err     []string
 	bound   map[string]bool
+	ghostOverride map[string]string
+	iter    *State // state at the head of the current loop iteration (iter_old)
+}
+
+func (sc *SpecScope) ghostSym(name string) string {
+	st := sc.cur
+	if st == nil {
+		st = sc.c.entry
+	}
+	return sc.c.heapSym(st, "G_"+name, "Int", 1)
 }
 
 func (sc *SpecScope) child() *SpecScope {
@@ -377,6 +387,17 @@ func (sc *SpecScope) call(x *ast.CallExpr) Val {
 			n.vars[k] = sc.vars[k]
 		}
 		return n.eval(arg(0))
+	case "iter_old":
+		if sc.iter == nil {
+			return sc.fail("iter_old outside a loop")
+		}
+		n := *sc
+		n.cur = sc.iter
+		n.vars = map[string]Val{}
+		for k, v := range sc.vars {
+			n.vars[k] = v
+		}
+		return n.eval(arg(0))
 	case "forall", "exists":
 		id, ok := arg(0).(*ast.Ident)
 		if !ok {
@@ -501,6 +522,25 @@ func (sc *SpecScope) call(x *ast.CallExpr) Val {
 		}
 		return vBool(c.frameFormula(sc.old, sc.cur, sc.old.alloc, nil))
 	}
+	if c.spec != nil && !sc.pure {
+		for _, g := range c.spec.GhostFns {
+			if g.Name == name {
+				sym := sc.ghostSym(name)
+				var as []string
+				for i := range x.Args {
+					as = append(as, sc.intOf(x.Args[i]))
+				}
+				return vInt(sx(sym, as...))
+			}
+		}
+	}
+	if sym, ok := sc.ghostOverride[name]; ok {
+		var as []string
+		for i := range x.Args {
+			as = append(as, sc.intOf(x.Args[i]))
+		}
+		return vInt(sx(sym, as...))
+	}
 	if sym, ok := c.ghostFns[name]; ok {
 		var as []string
 		for i := range x.Args {
@@ -532,6 +572,17 @@ func (sc *SpecScope) call(x *ast.CallExpr) Val {
 			for _, s := range v.flat() {
 				args = append(args, s.S)
 			}
+		}
+		if sf.Macro && sf.Body != nil {
+			n := sc.child()
+			for i, p := range sf.Params {
+				if i < len(argVals) {
+					n.vars[p] = argVals[i]
+				}
+			}
+			r := n.eval(sf.Body)
+			sc.err = append(sc.err, n.err...)
+			return r
 		}
 		if static && sf.Body != nil {
 			// a concrete value passed where the spec function takes an interface: expand the body
